@@ -1,5 +1,6 @@
 mod alloc;
 mod c04;
+mod c09;
 mod c11;
 mod c12;
 mod sched;
@@ -49,6 +50,7 @@ fn main() {
                 "C11" => c11::run_shard(&ctx, &mut rep),
                 "C04" => c04::run_shard(&ctx, &mut rep),
                 "C12" => c12::run_shard(&ctx, &mut rep),
+                "C09" => c09::run_shard(&ctx, &mut rep),
                 _ => {
                     eprintln!("unknown property");
                     std::process::exit(2);
@@ -71,6 +73,7 @@ fn main() {
                 "C11" => c11::replay(&j["scenario"]),
                 "C04" => c04::replay(&j["scenario"]),
                 "C12" => c12::replay(&j["scenario"]),
+                "C09" => c09::replay(&j["scenario"]),
                 _ => Err(format!("unknown property {}", prop)),
             };
             match r {
@@ -102,6 +105,7 @@ fn meta_of(prop: &str) -> Option<engine::CheckMeta> {
         "C11" => Some(c11::meta()),
         "C04" => Some(c04::meta()),
         "C12" => Some(c12::meta()),
+        "C09" => Some(c09::meta()),
         _ => None,
     }
 }
